@@ -18,6 +18,20 @@ type PrefixModel struct {
 	N        uint64
 	Known    map[string]map[string]*PrefixInfo // client -> "ip/len" -> info
 	Owner    map[uint64]string                 // block -> client
+	// Lapsed: what each client held when ExpireAll was called (informational: hints can name it)
+	Lapsed map[string][]string
+}
+
+// ExpireAll is called when the valid lifetime of every delegation made so far has run out: nobody holds
+// anything any more. From here on the server may hand a lapsed block to another client, or confirm it to
+// its former holder again - but never both while the new lifetimes run.
+func (m *PrefixModel) ExpireAll() {
+	m.Lapsed = map[string][]string{}
+	for c, ks := range m.Known {
+		m.Lapsed[c] = keys(ks)
+	}
+	m.Known = map[string]map[string]*PrefixInfo{}
+	m.Owner = map[uint64]string{}
 }
 
 type PrefixInfo struct {
@@ -232,8 +246,12 @@ func (m *PrefixModel) Judge(client string, req []ReqPD, rep []ReplyPD, tBefore, 
 	}
 	if pure {
 		var extra []string
+		lapsed := map[string]bool{}
+		for _, k := range m.Lapsed[client] {
+			lapsed[k] = true // confirming a lapsed lease to its former holder again consumes nothing new
+		}
 		for k := range told {
-			if _, ok := known[k]; !ok {
+			if _, ok := known[k]; !ok && !lapsed[k] {
 				extra = append(extra, k)
 			}
 		}
